@@ -40,8 +40,8 @@ OpHistUnit(c) == LET u == PU(c.lu)  v == IF Compatible(u, PU(c.ru)) THEN u ELSE 
 UnitAfter(m, u) == CASE m \in {"imul", "out"} -> UMul(u, u) [] m = "idiv" -> Unit0 [] m = "setter" -> UPow(U1("kg"), 2)
 Tr(f, u) == CASE f = "sqrt" -> URoot(u, 2) [] f = "square" -> UPow(u, 2) [] f = "reciprocal" -> UInv(u)
 \* in-place operators x op= y (C17): the outcome is that of x op y (same rule), x stays the same object, y is left untouched
-F_Inplace == {BinCase("inplace", op, i, j, "f8", b, rk, "s2", IF rk = "float" THEN "s0" ELSE "s2") :
-                op \in Arith, i \in SmallPool \cup {IdxOf("km")}, j \in SmallPool \cup {IdxOf("km")}, b \in {"f8", "f4"}, rk \in {"arr", "qty", "float", "nd1"}}
+F_Inplace == {BinCase("inplace", op, i, j, a, b, rk, "s2", IF rk = "float" THEN "s0" ELSE "s2") :
+                op \in Arith, i \in SmallPool \cup {IdxOf("km")}, j \in SmallPool \cup {IdxOf("km")}, a \in {"f8", "f4"}, b \in {"f8", "f4"}, rk \in {"arr", "qty", "float", "nd1"}}
 CONSTANT Fams       \* the families a run enumerates (a check only needs those that decide its property)
 FamSet(f) == CASE f = "units" -> F_Units [] f = "dtypes" -> F_Dtypes [] f = "kinds" -> F_Kinds [] f = "shapes" -> F_Shapes [] f = "logic" -> F_Logic
                [] f = "unary" -> F_Unary [] f = "to" -> F_To [] f = "chain" -> F_Chain [] f = "np" -> F_Np \cup F_NpHist [] f = "inplace" -> F_Inplace [] f = "ophist" -> F_OpHist
